@@ -39,7 +39,7 @@ func (r *c35Run) Setup(s *sim.Sim) {
 	s.DrawPolicy()
 	n := 10 + p.Intn(40)
 	for i := 0; i < n; i++ {
-		r.Ops = append(r.Ops, c35Op{Kind: c35Kinds[p.Intn(len(c35Kinds))], Token: sim.Pick(p, "null", "random", "created", "closed"), A: p.Intn(8)})
+		r.Ops = append(r.Ops, c35Op{Kind: c35Kinds[p.Intn(len(c35Kinds))], Token: sim.Pick(p, "null", "random", "created", "closed", "closed-elsewhere"), A: p.Intn(8)})
 	}
 }
 
@@ -114,6 +114,48 @@ func (r *c35Run) Main(s *sim.Sim) {
 		}
 		c.SecureChannel().SendRequest(ctx, &ua.ActivateSessionRequest{ClientSignature: &ua.SignatureData{}, UserIdentityToken: ua.NewExtensionObject(&ua.AnonymousIdentityToken{PolicyID: "anonymous_none"}), UserTokenSignature: &ua.SignatureData{}}, tok, func(ua.Response) error { return nil })
 		c.SecureChannel().SendRequest(ctx, &ua.CloseSessionRequest{}, tok, func(ua.Response) error { return nil })
+		return tok
+	}()
+
+	// a session that was created, activated and used on the intruder's own channel, then
+	// activated and used on a second channel (what a reconnecting client does) and closed
+	// there: its token must be dead on the first channel as well
+	closedElsewhereTok := func() *ua.NodeID {
+		act := func(via *uasc.SecureChannel, tok *ua.NodeID) bool {
+			good := false
+			via.SendRequest(ctx, &ua.ActivateSessionRequest{ClientSignature: &ua.SignatureData{}, UserIdentityToken: ua.NewExtensionObject(&ua.AnonymousIdentityToken{PolicyID: "anonymous_none"}), UserTokenSignature: &ua.SignatureData{}}, tok, func(v ua.Response) error {
+				if ar, ok := v.(*ua.ActivateSessionResponse); ok && ar.ResponseHeader.ServiceResult == ua.StatusOK {
+					good = true
+				}
+				return nil
+			})
+			return good
+		}
+		use := func(via *uasc.SecureChannel, tok *ua.NodeID) bool {
+			good := false
+			via.SendRequest(ctx, readReq(e.nodeID("x")), tok, func(v ua.Response) error {
+				if rr, ok := v.(*ua.ReadResponse); ok && rr.ResponseHeader.ServiceResult == ua.StatusOK {
+					good = true
+				}
+				return nil
+			})
+			return good
+		}
+		tok := createSession(sc)
+		if tok == nil || !act(sc, tok) || !use(sc, tok) {
+			return nil
+		}
+		c2, err := newClient(opcua.AutoReconnect(false), opcua.RequestTimeout(5*time.Second))
+		if err != nil || c2.Dial(ctx) != nil {
+			return nil
+		}
+		defer c2.Close(ctx)
+		if !act(c2.SecureChannel(), tok) || !use(c2.SecureChannel(), tok) {
+			s.Probe("session-transfer-refused")
+			return nil
+		}
+		c2.SecureChannel().SendRequest(ctx, &ua.CloseSessionRequest{}, tok, func(ua.Response) error { return nil })
+		s.Probe("session-closed-on-second-channel")
 		return tok
 	}()
 
@@ -211,6 +253,11 @@ func (r *c35Run) Main(s *sim.Sim) {
 			}
 		case "closed":
 			tok = closedTok
+			if tok == nil {
+				continue
+			}
+		case "closed-elsewhere":
+			tok = closedElsewhereTok
 			if tok == nil {
 				continue
 			}
